@@ -11,6 +11,7 @@ import (
 	"errors"
 	"fmt"
 	"net"
+	"runtime"
 	"strconv"
 	"strings"
 	"time"
@@ -41,6 +42,10 @@ type vfCase struct {
 	ending    vfEnding
 	replyCode byte  // code passed to Request.Reply after a successful handshake
 	writeFail int64 // >= 0: the server's writes fail from this stream offset on
+	// concurrent unit: tiny pauses (scheduler yields) after each released segment, and
+	// free = the segments of one message follow each other without waiting for the server
+	pauses []int
+	free   bool
 }
 
 // vfObs is what was observed.
@@ -107,6 +112,7 @@ func vfDrive(c *vfCase) *vfObs {
 	if wedged(n.WaitQuiescent(wire.B)) {
 		return o
 	}
+	pauseIdx := 0
 	for i, step := range c.steps {
 		if srv.Exited() {
 			break
@@ -127,6 +133,15 @@ func vfDrive(c *vfCase) *vfObs {
 				k = 1
 			}
 			n.Release(wire.A, k)
+			if len(c.pauses) > 0 {
+				for y := c.pauses[pauseIdx%len(c.pauses)]; y > 0; y-- {
+					runtime.Gosched()
+				}
+				pauseIdx++
+			}
+			if c.free {
+				continue
+			}
 			if wedged(n.WaitQuiescent(wire.B)) {
 				return o
 			}
@@ -136,6 +151,8 @@ func vfDrive(c *vfCase) *vfObs {
 			if wedged(n.WaitQuiescent(wire.B)) {
 				return o
 			}
+		} else if c.free && wedged(n.WaitQuiescent(wire.B)) {
+			return o
 		}
 		if srv.Exited() {
 			break
